@@ -141,6 +141,7 @@ pub fn op_short(op: &Op) -> &'static str {
         Op::MediaDownload { .. } => "media",
         Op::MediaEncrypt { .. } => "mediaenc",
         Op::RotateKeyPackages => "kprotate",
+        Op::ResendMsg { .. } => "resend",
         Op::SetGroupImage { .. } => "setimage",
         Op::GroupImageDownload { .. } => "gimage",
         Op::Hostile(_) => "hostile",
